@@ -125,6 +125,8 @@ GP_STEPS = {
     "elite-xo-mut": lambda: ParallelStep([ElitismStep(), SequenceStep(TournamentSelection(3), GenericCrossoverStep(1.0),
                                                                       GenericMutationStep(0.5))], [1, 3]),
     "excl": lambda: ExclusiveParallelStep([ElitismStep(), GenericMutationStep(1.0)], [1, 2]),
+    # a composition that ENDS in the crossover: nothing after it trims what it yields
+    "sel-xo": lambda: SequenceStep(TournamentSelection(2), GenericCrossoverStep(1.0)),
     "elite-only": lambda: ElitismStep(),
     # variation first, then a step that evaluates the offspring through the evaluator and keeps ALL of them
     "mut-elite": lambda: SequenceStep(GenericMutationStep(1.0), ElitismStep()),
@@ -478,6 +480,12 @@ def main():
                 ev, cfg = algorithm_run(R, "GP", h, "table", [mi], False, "eval", pop * (4 if quick else 9), "ge" if (si + pop) % 2 else "tree",
                                         gp_step=stepname, pop=pop)
                 batch.trace(f"run/gens/{stepname}/{pop}/{int(mi)}", ev, cfg)
+                stats["events"] += len(ev)
+            # budgets that a generation boundary misses by one: the window "fewer than n + population size" is tight there
+            for nn in (pop + 1, 2 * pop + 2, 3 * pop + 1):
+                ev, cfg = algorithm_run(R, "GP", [[x] for x in (5, 1, 9, 3, 11, 7, 2, 12, 4, 10, 6, 8)], "table", [False], False, "eval", nn,
+                                        "tree" if (si + pop) % 2 else "ge", gp_step=stepname, pop=pop)
+                batch.trace(f"run/gens/{stepname}/{pop}/n{nn}", ev, cfg)
                 stats["events"] += len(ev)
 
     # fractional targets against integer-valued fitness: the tolerance of a target budget is ABSOLUTE (1e-4) - a best
